@@ -466,11 +466,6 @@ theorem not_before_of_beforeB_false {α : Type} [DecidableEq α] {l : List α} {
   rw [beforeB_of_before hnd hb] at h
   cases h
 
-/-- executable test for `IsTopo` (used for examples and by the driver on observed orders) -/
-def isTopoB {α : Type} [DecidableEq α] (ns : List α) (E : List (α × α)) (order : List α) : Bool :=
-  nodupB order && order.all (fun n => decide (n ∈ ns)) && ns.all (fun n => decide (n ∈ order)) &&
-    E.all (fun e => beforeB order e.1 e.2)
-
 theorem isTopo_of_isTopoB {α : Type} [DecidableEq α] {ns : List α} {E : List (α × α)} {order : List α}
     (h : isTopoB ns E order = true) : IsTopo ns E order := by
   simp only [isTopoB, Bool.and_eq_true, List.all_eq_true, decide_eq_true_eq] at h
